@@ -172,9 +172,23 @@ def build_variant(case):
                         out.append(eol + " ")
                 return "".join(out)
             lines = [fold_all(ln) for ln in lines]
+    if kind == "eolmix":
+        # the LF-for-CRLF rewrite applied to SOME line breaks only (every break is CRLF or LF on its own)
+        _, _, _, pattern, idx, as_str, foldeol, trailing = case
+        n = len(lines)
+        lf = {"one-lf": lambda i: i == idx, "one-crlf": lambda i: i != idx, "alt": lambda i: i % 2 == idx % 2,
+              "upto-lf": lambda i: i <= idx, "from-lf": lambda i: i >= idx}[pattern]
+        if foldeol:
+            def fold3(ln):
+                pos = 3
+                while pos < len(ln) and foldeol == "\n" and ln[pos - 1] == "\r":
+                    pos += 1
+                return ln if pos >= len(ln) else ln[:pos] + foldeol + " " + ln[pos:]
+            lines = [fold3(ln) for ln in lines]
+        text = "".join(ln + ("\n" if lf(i) else "\r\n") for i, ln in enumerate(lines))
+        text += ("", "\n", "\r\n\n")[trailing]
+        return text if as_str else text.encode("utf-8")
     text = render(lines, eol, trailing)
-    if kind in ("fold1", "foldj"):
-        pass
     if as_str:
         return text  # R2 o R3 = the decoded text without the byte-order mark
     data = text.encode("utf-8")
@@ -212,7 +226,8 @@ def run(ctx):
     ctx.rule = ("E-dev from 14 reference-written calendars: (R5) one fold at every inter-character position of every line with "
                 "SP and TAB, folds every j characters (j=1,2,3,74) with SP and TAB; then every subset of {LF, BOM, str, trailing "
                 "blank lines (0/1/3)} x every combination of 4 casings on 4 kinds of names (256) x {as is, fold after every "
-                "character}; all under both providers" + (" (quick: case combinations restricted to those where at most two kinds of "
+                "character}; plus (R1 partially) every line break CRLF or LF on its own: exactly one LF, exactly one CRLF, alternating, LF up to / from "
+                "every line index x {no fold, a CRLF fold, an LF fold in every line} x str/bytes x trailing blank lines; all under both providers" + (" (quick: case combinations restricted to those where at most two kinds of "
                 "names are re-cased; thorough: all 256)" if ctx.quick else "") + ". non-trivial = every variant differs from its base text.")
     ctx.bounds = {"bases": len(BASES), "casings": CASINGS, "targets": TARGETS}
     ctx.assumptions += ["a str input starting with U+FEFF is excluded (the byte-order mark is a property of byte input)",
@@ -246,5 +261,19 @@ def run(ctx):
                                     continue
                                 yield ("combo", provider, b, r1, r2, r3, r4, cas, refold)
 
+    def gen_eolmix():
+        for provider in env.PROVIDERS:
+            for b in bases:
+                n = len(BASES[b])
+                for pattern in ("one-lf", "one-crlf", "alt", "upto-lf", "from-lf"):
+                    for idx in (range(2) if pattern == "alt" else range(n)):
+                        for as_str in (False, True):
+                            for foldeol in ("", "\r\n", "\n"):
+                                for trailing in (0, 1, 2):
+                                    if ctx.quick and trailing and foldeol:
+                                        continue
+                                    yield ("eolmix", provider, b, pattern, idx, as_str, foldeol, trailing)
+
     ctx.explore("fold-placement", gen_folds, run_case)
+    ctx.explore("line-break-mixtures", gen_eolmix, run_case)
     ctx.explore("rewrite-compositions", gen_combo, run_case)
